@@ -16,6 +16,7 @@ import (
 	"sort"
 	"strconv"
 	"strings"
+	"sync/atomic"
 	"time"
 
 	"verif/mc"
@@ -296,6 +297,10 @@ type checkingCalculator struct {
 	s     *wfState
 }
 
+// nonTerminating is set once a call into the code under test exceeded the
+// cap; it only shortens the end of a run that has found a violation.
+var nonTerminating atomic.Bool
+
 // located is a panic value together with the function of the code under test
 // that raised it.
 type located struct {
@@ -344,6 +349,12 @@ func (s *wfState) guarded(call string, fn func()) {
 // watch runs fn on a separate goroutine so that an endless loop in the real
 // code becomes a violation instead of a hung worker.
 func (s *wfState) watch(what string, fn func()) {
+	if nonTerminating.Load() {
+		// Another instance already found the endless loop: do not wait
+		// for the cap again (the exploration is about to end).
+		s.fail("wf/nontermination/"+what, "%s does not terminate (found on another operation sequence of this run)", what)
+		panic("non-terminating " + what)
+	}
 	done := make(chan any, 1)
 	go func() {
 		defer func() {
@@ -363,6 +374,7 @@ func (s *wfState) watch(what string, fn func()) {
 			panic(r)
 		}
 	case <-t.C:
+		nonTerminating.Store(true)
 		s.fail("wf/nontermination/"+what, "%s did not return within %s (power iteration does not converge); stats of the handle: %s; size classes %v", what, nonTerminationCap, s.handleStats(), s.list())
 		// The goroutine cannot be stopped; the exploration ends with
 		// this violation.
